@@ -1,22 +1,30 @@
 """C05 - links are applied at exactly the places where they fit.
 
 spec/Links.tla        MatchOrderOp (implementation-shaped) / MatchOrderDoc (documented matrix); Fits(L, M): attributes
-                      (equality, Choice, NotDefinedOrNot), required AND absent bonds, residue orders, non-edges, patterns,
-                      molecule-level conditions; ApplyPlacement: replace, remove-matching, add-or-replace by
-                      (type, atoms, version), geometry-derived parameters on an integer lattice
+                      (equality, Choice, NotDefinedOrNot), the `modifications` condition (absent / empty / list / string / Choice)
+                      on link atoms, non-edge partners and pattern atoms, required AND absent bonds, residue orders, non-edges,
+                      patterns, molecule-level conditions; ApplyPlacement: replace, remove-matching (parameters, per-atom
+                      conditions, meta conditions), add-or-replace by (type, atoms, version); geometry-derived parameters
+                      (distance, angle, dihedral, shifted dihedral) as exact integer invariants of lattice positions
 spec/LinksOrder.tla   TAB model of the order relation (OpIsDoc, Symmetric)
 spec/Trace_Links.tla  TLC judges recorded runs of the real DoLinks.run_molecule (matches per link from an interposed
                       match_link, node attributes seen by each link, final interaction table) and rows of match_order
 
 spec -> code: every row of the order table is replayed into the real match_order (including the ValueError set).
-code -> spec: generated molecules x ordered link lists over a feature pool; every placement the real code applies must
-be in Fits (sound), every element of Fits must be applied (complete), the final table must equal the fold of
-ApplyPlacement in the recorded order (later links override earlier ones; nothing unjustified)."""
+code -> spec: (a) generated molecules x ordered link lists over a feature pool; (b) the shipped link libraries (martini3001,
+martini22, elnedyn22) on real coarse-grained molecules built by the real pipeline (harness/c05_real.py).  In both, every
+placement the real code applies must be in Fits (sound), every element of Fits must be applied (complete), the final table must
+equal the fold of ApplyPlacement in the recorded order (later links override earlier ones; nothing unjustified), and every
+geometry-derived parameter must be the value of the exact invariants TLC computes from the matched atoms' positions.
+The projection real object -> JSON is one generic function for both families (c05_real.abstract_link / abstract_state); for
+the generated family it is checked to invert the construction of the objects."""
+
 import itertools
 import multiprocessing as mp
 import random
 
 from . import common, tlc
+from . import c05_real as R
 
 PID = 'C05'
 
@@ -67,13 +75,22 @@ def check_invalid_orders(vd, ev):
             vd.violation('valid-order-rejected', {'order': common.jsonable(o)}, repr(exc))
 
 
-# ------------------------------------------------------------------ molecules and links
+
+
+# ------------------------------------------------------------------ molecules and links (generated family)
+UNIT_PM = 100          # generated molecules: 100 pm lattice, coordinates -6..6
+ATTR_KEYS = ['atomname', 'resname', 'chain', 'cgsecstruct', 'mark', 'atype']
+META_KEYS = ['cter', 'moltype']
+MOD_SETS = [[['N-ter']], [['C-ter']], [['N-ter'], ['prot']], [['N-ter', 'prot']], [['C-ter'], ['C-ter']], [['prot']], [['C-ter'], ['N-ter']]]
+
+
 def pred(key, kind, *vals):
     return {'key': key, 'kind': kind, 'vals': [str(v) for v in vals]}
 
 
 def make_molecule(rng):
-    """Abstract molecule: residues of BB (+ SC1 (+ SC2)); resids with gaps / repeated in another chain; extra bonds."""
+    """Abstract molecule: residues of BB (+ SC1 (+ SC2)); resids with gaps / repeated in another chain; extra bonds;
+    atoms carrying modifications; positions random / planar / on a coarse grid (so that every angle class occurs)."""
     nres = rng.randint(2, 5)
     nodes, edges, pos = [], [], []
     resid = rng.choice([1, 1, 5, 40])
@@ -81,6 +98,7 @@ def make_molecule(rng):
     nid = rng.choice([0, 0, 3, 10])
     bbs = []
     prev_bb = None
+    geom = rng.choice(['random', 'random', 'planar', 'grid', 'line'])
     for r in range(nres):
         if r and rng.random() < 0.25:
             resid += rng.choice([2, 3])          # numbering gap
@@ -98,8 +116,15 @@ def make_molecule(rng):
             attrs = [['atomname', name], ['resname', resname], ['chain', chain], ['cgsecstruct', ss]]
             if rng.random() < 0.3:
                 attrs.append(['mark', rng.choice(['x', 'y'])])
-            nodes.append({'id': nid, 'resid': resid, 'attrs': attrs})
-            pos.append([nid, rng.randint(-6, 6) * 100, rng.randint(-6, 6) * 100, rng.randint(-6, 6) * 100])
+            mods = rng.choice(MOD_SETS) if rng.random() < (0.45 if name == 'BB' else 0.2) else []
+            nodes.append({'id': nid, 'resid': resid, 'attrs': attrs, 'mods': mods})
+            if geom == 'grid':
+                xyz = [rng.randint(-1, 1) * 2, rng.randint(-1, 1) * 2, rng.randint(-1, 1) * 2]
+            elif geom == 'line':
+                xyz = [rng.randint(-6, 6), 0, 0] if rng.random() < 0.8 else [rng.randint(-2, 2), rng.randint(-2, 2), 0]
+            else:
+                xyz = [rng.randint(-6, 6), rng.randint(-6, 6), 0 if geom == 'planar' else rng.randint(-6, 6)]
+            pos.append([nid] + xyz)
             ids.append(nid)
             nid += rng.choice([1, 1, 2])
         if prev_bb is not None and rng.random() < 0.9:
@@ -116,10 +141,13 @@ def make_molecule(rng):
         if [a, b] not in edges and [b, a] not in edges:
             edges.append([min(a, b), max(a, b)])
     rng.shuffle(edges)          # bond creation order (= adjacency iteration order) is arbitrary
-    meta = [['moltype', 'mol']] + ([['cter', 'yes']] if rng.random() < 0.5 else [])
+    meta = ([['cter', 'yes']] if rng.random() < 0.5 else []) + [['moltype', 'mol']]
     inters = []
-    if rng.random() < 0.6 and len(bbs) >= 2:
-        inters.append({'type': 'bonds', 'atoms': [bbs[0], bbs[1]], 'params': [['p', '1'], ['p', '0.35']], 'ver': 0})
+    for a, b in zip(bbs, bbs[1:]):
+        if rng.random() < 0.5:
+            group = rng.choice(['bb', 'bb', 'other', None])
+            inters.append({'type': 'bonds', 'atoms': [a, b], 'params': [['p', '1'], ['p', '0.35']], 'ver': 0,
+                           'meta': [['group', group]] if group else []})
     return {'nodes': nodes, 'edges': edges, 'meta': meta, 'pos': pos, 'inters': inters}
 
 
@@ -127,241 +155,312 @@ def num(v):
     return {'k': 'num', 'v': v}
 
 
-def link_pool(rng):
-    """Abstract links; each feature of the statement is the sole reason for a placement to fail in some link."""
-    def node(key, order, *preds):
-        name = key.lstrip('+-><*')
-        return {'key': key, 'order': order, 'preds': [pred('atomname', 'eq', name)] + list(preds)}
+def mods_list(*names):
+    return {'k': 'list', 'vals': list(names)}
 
-    def inter(t, atoms, params, ver=0):
-        return {'type': t, 'atoms': atoms, 'params': params, 'ver': ver}
+
+def mods_str(name):
+    return {'k': 'str', 'vals': [name]}
+
+
+def mods_choice(*names):
+    return {'k': 'choice', 'vals': list(names)}
+
+
+def link_pool():
+    """Abstract links; each feature of the statement is the sole reason for a placement to fail in some link."""
+    def node(key, order, *preds, mods=None):
+        name = key.lstrip('+-><*')
+        return {'key': key, 'order': order, 'preds': [pred('atomname', 'eq', name)] + list(preds), 'mods': mods or dict(R.ABSENT)}
+
+    def inter(t, atoms, params, ver=0, group=None, fmt=None):
+        meta = ([['group', group]] if group else []) + ([['version', '#num:%d' % ver]] if ver else [])
+        return {'type': t, 'atoms': atoms, 'params': params, 'ver': ver, 'meta': meta, 'fmt': [[str(i), f] for i, f in (fmt or {}).items()]}
+
+    def removal(t, atoms, params=(), atom_attrs=None, meta=()):
+        return {'type': t, 'atoms': atoms, 'params': list(params), 'atom_attrs': atom_attrs or [[] for _ in atoms], 'meta': list(meta)}
     P = lambda *x: [['p', str(v)] for v in x]      # noqa: E731
+    gt, lt, star = {'k': 'gt', 'v': 1}, {'k': 'lt', 'v': 1}, {'k': 'star', 'v': 1}
+    bb2 = [node('BB', num(0)), node('+BB', num(1))]
+    bb3 = [node('-BB', num(-1)), node('BB', num(0)), node('+BB', num(1))]
+    e3 = [['-BB', 'BB'], ['BB', '+BB']]
     pool = []
     # backbone bond with geometry-derived length, replaced by a later link for helices
-    pool.append({'name': 'bb-bond', 'nodes': [node('BB', num(0)), node('+BB', num(1))], 'edges': [['BB', '+BB']],
-                 'inters': [inter('bonds', ['BB', '+BB'], [['p', '1'], ['dist', 'BB', '+BB'], ['p', '1250']])]})
+    pool.append({'name': 'bb-bond', 'nodes': bb2, 'edges': [['BB', '+BB']],
+                 'inters': [inter('bonds', ['BB', '+BB'], [['p', '1'], ['dist', 'BB', '+BB'], ['p', '1250']], group='bb')]})
     pool.append({'name': 'bb-bond-helix', 'nodes': [node('BB', num(0), pred('cgsecstruct', 'eq', 'H')), node('+BB', num(1), pred('cgsecstruct', 'eq', 'H'))],
-                 'edges': [['BB', '+BB']], 'inters': [inter('bonds', ['BB', '+BB'], P(1, 0.31, 9999))]})
-    pool.append({'name': 'angle-order', 'nodes': [node('-BB', num(-1)), node('BB', num(0)), node('+BB', num(1))],
-                 'edges': [['-BB', 'BB'], ['BB', '+BB']], 'inters': [inter('angles', ['-BB', 'BB', '+BB'], P(2, 127, 20))]})
-    pool.append({'name': 'angle-arrows', 'nodes': [node('<BB', {'k': 'lt', 'v': 1}), node('BB', num(0)), node('>BB', {'k': 'gt', 'v': 1})],
+                 'edges': [['BB', '+BB']], 'inters': [inter('bonds', ['BB', '+BB'], P(1, 0.31, 9999), group='helix')]})
+    pool.append({'name': 'angle-order', 'nodes': bb3, 'edges': e3, 'inters': [inter('angles', ['-BB', 'BB', '+BB'], P(2, 127, 20))]})
+    pool.append({'name': 'angle-arrows', 'nodes': [node('<BB', lt), node('BB', num(0)), node('>BB', gt)],
                  'edges': [['<BB', 'BB'], ['BB', '>BB']], 'inters': [inter('angles', ['<BB', 'BB', '>BB'], P(10, 100, 5), 1)]})
-    pool.append({'name': 'star-bridge', 'nodes': [node('SC1', num(0), pred('resname', 'eq', 'CYS')), node('*SC1', {'k': 'star', 'v': 1}, pred('resname', 'eq', 'CYS'))],
+    pool.append({'name': 'star-bridge', 'nodes': [node('SC1', num(0), pred('resname', 'eq', 'CYS')), node('*SC1', star, pred('resname', 'eq', 'CYS'))],
                  'edges': [], 'inters': [inter('constraints', ['SC1', '*SC1'], P(1, 0.24))]})
     pool.append({'name': 'choice', 'nodes': [node('BB', num(0), pred('resname', 'in', 'ALA', 'LYS')), node('SC1', num(0))],
                  'edges': [['BB', 'SC1']], 'inters': [inter('bonds', ['BB', 'SC1'], P(1, 0.27, 7500))],
                  'replaces': [{'key': 'SC1', 'attr': 'atype', 'value': 'Q5'}]})
     pool.append({'name': 'notdef', 'nodes': [node('BB', num(0), pred('mark', 'notdef', 'x')), node('+BB', num(1))],
                  'edges': [['BB', '+BB']], 'inters': [inter('exclusions', ['BB', '+BB'], [])]})
-    pool.append({'name': 'non-edge', 'nodes': [node('-BB', num(-1)), node('BB', num(0)), node('+BB', num(1))],
-                 'edges': [['-BB', 'BB'], ['BB', '+BB']], 'nonedges': [{'from': 'BB', 'order': 0, 'preds': [pred('atomname', 'eq', 'SC1')]}],
+    pool.append({'name': 'non-edge', 'nodes': bb3, 'edges': e3,
+                 'nonedges': [{'from': 'BB', 'order': 0, 'preds': [pred('atomname', 'eq', 'SC1')], 'mods': dict(R.ABSENT)}],
                  'inters': [inter('angles', ['-BB', 'BB', '+BB'], P(2, 134, 25))]})
     pool.append({'name': 'non-edge-next', 'nodes': [node('BB', num(0)), node('SC1', num(0))], 'edges': [['BB', 'SC1']],
-                 'nonedges': [{'from': 'BB', 'order': 1, 'preds': [pred('atomname', 'eq', 'BB'), pred('resname', 'eq', 'GLY')]}],
+                 'nonedges': [{'from': 'BB', 'order': 1, 'preds': [pred('atomname', 'eq', 'BB'), pred('resname', 'eq', 'GLY')], 'mods': dict(R.ABSENT)}],
                  'inters': [inter('bonds', ['BB', 'SC1'], P(1, 0.4, 100), 2)]})
-    pool.append({'name': 'pattern', 'nodes': [node('BB', num(0)), node('+BB', num(1))], 'edges': [['BB', '+BB']],
-                 'patterns': [[{'key': 'BB', 'preds': [pred('cgsecstruct', 'eq', 'H')]}, {'key': '+BB', 'preds': [pred('cgsecstruct', 'eq', 'C')]}],
-                              [{'key': 'BB', 'preds': [pred('resname', 'eq', 'GLY')]}]],
+    pool.append({'name': 'pattern', 'nodes': bb2, 'edges': [['BB', '+BB']],
+                 'patterns': [[{'key': 'BB', 'preds': [pred('cgsecstruct', 'eq', 'H')], 'mods': dict(R.ABSENT)},
+                               {'key': '+BB', 'preds': [pred('cgsecstruct', 'eq', 'C')], 'mods': dict(R.ABSENT)}],
+                              [{'key': 'BB', 'preds': [pred('resname', 'eq', 'GLY')], 'mods': dict(R.ABSENT)}]],
                  'inters': [inter('dihedral_restraints', ['BB', '+BB'], P(1, 2, 3))]})
     pool.append({'name': 'molmeta', 'nodes': [node('BB', num(0)), node('SC1', num(0))], 'edges': [['BB', 'SC1']],
-                 'molmeta': [pred('cter', 'eq', 'yes')], 'inters': [inter('bonds', ['BB', 'SC1'], P(1, 0.5, 50), 3)]})
-    pool.append({'name': 'remove', 'nodes': [node('BB', num(0)), node('+BB', num(1))], 'edges': [['BB', '+BB']],
-                 'removes': [{'type': 'bonds', 'atoms': ['BB', '+BB'], 'params': []}], 'inters': []})
+                 'molmeta': [pred('cter', 'eq', 'yes')], 'inters': [inter('bonds', ['BB', 'SC1'], P(1, 0.5, 50), 3)], 'features': ['cterm']})
+    pool.append({'name': 'remove', 'nodes': bb2, 'edges': [['BB', '+BB']], 'removes': [removal('bonds', ['BB', '+BB'])], 'inters': []})
     pool.append({'name': 'no-bond-required', 'nodes': [node('BB', num(0)), node('++BB', num(2))], 'edges': [],
                  'inters': [inter('pairs', ['BB', '++BB'], P(1))]})
     pool.append({'name': 'delete-sc2', 'nodes': [node('SC1', num(0)), node('SC2', num(0), pred('resname', 'eq', 'LYS'))], 'edges': [['SC1', 'SC2']],
                  'deletes': ['SC2'], 'inters': []})
+    # ---- the `modifications` condition: on link atoms (all forms), on a non-edge partner, on pattern atoms
+    pool.append({'name': 'mods-empty-replace', 'nodes': [node('BB', num(0), pred('cgsecstruct', 'eq', 'C'), mods=dict(R.EMPTY))], 'edges': [],
+                 'replaces': [{'key': 'BB', 'attr': 'atype', 'value': 'Nda'}], 'inters': []})
+    pool.append({'name': 'mods-list', 'nodes': [node('BB', num(0), mods=mods_list('prot', 'N-ter')), node('SC1', num(0))], 'edges': [['BB', 'SC1']],
+                 'inters': [inter('pairs', ['BB', 'SC1'], P(1, 7))]})
+    pool.append({'name': 'mods-list-repeated', 'nodes': [node('BB', num(0), mods=mods_list('C-ter', 'C-ter'))], 'edges': [],
+                 'inters': [inter('position_restraints', ['BB'], P(2, 50))]})
+    pool.append({'name': 'mods-str', 'nodes': [node('-BB', num(-1)), node('BB', num(0), mods=mods_str('C-ter'))], 'edges': [['-BB', 'BB']],
+                 'inters': [inter('bonds', ['-BB', 'BB'], P(1, 0.33, 'cter'), 4)]})
+    pool.append({'name': 'mods-choice', 'nodes': [node('BB', num(0), mods=mods_choice('N-ter', 'C-ter'))], 'edges': [],
+                 'inters': [inter('position_restraints', ['BB'], P(1, 1000))]})
+    pool.append({'name': 'mods-non-edge', 'nodes': bb2, 'edges': [['BB', '+BB']],
+                 'nonedges': [{'from': 'BB', 'order': 0, 'preds': [pred('atomname', 'eq', 'SC1')], 'mods': dict(R.EMPTY)}],
+                 'inters': [inter('cmap', ['BB', '+BB'], P(3))]})
+    pool.append({'name': 'mods-pattern', 'nodes': bb2, 'edges': [['BB', '+BB']],
+                 'patterns': [[{'key': 'BB', 'preds': [], 'mods': mods_str('N-ter')}],
+                              [{'key': '+BB', 'preds': [pred('resname', 'in', 'GLY', 'ALA')], 'mods': dict(R.EMPTY)}]],
+                 'inters': [inter('angle_restraints', ['BB', '+BB'], P(9))]})
+    pool.append({'name': 'pattern-null', 'nodes': bb2, 'edges': [['BB', '+BB']],
+                 'patterns': [[{'key': 'BB', 'preds': [{'key': 'mark', 'kind': 'null', 'vals': []}], 'mods': dict(R.ABSENT)},
+                               {'key': '+BB', 'preds': [{'key': 'mark', 'kind': 'null', 'vals': []}], 'mods': dict(R.ABSENT)}],
+                              [{'key': 'BB', 'preds': [pred('mark', 'eq', 'x')], 'mods': dict(R.ABSENT)}]],
+                 'inters': [inter('angle_restraints_z', ['BB', '+BB'], P(4))]})
+    # ---- geometry-derived parameters
+    pool.append({'name': 'angle-geo', 'nodes': bb3, 'edges': e3,
+                 'inters': [inter('angles', ['-BB', 'BB', '+BB'], [['p', '2'], ['angle', '-BB', 'BB', '+BB'], ['p', '40']])]})
+    pool.append({'name': 'angle-geo-formatted', 'nodes': [node('SC1', num(0)), node('BB', num(0)), node('+BB', num(1))], 'edges': [['SC1', 'BB'], ['BB', '+BB']],
+                 'inters': [inter('angles', ['SC1', 'BB', '+BB'], [['p', '1'], ['angle', 'SC1', 'BB', '+BB'], ['p', '25']], 1, fmt={1: '.2f'})]})
+    pool.append({'name': 'dihedral-geo', 'nodes': bb3 + [node('+SC1', num(1))], 'edges': e3 + [['+BB', '+SC1']],
+                 'inters': [inter('dihedrals', ['-BB', 'BB', '+BB', '+SC1'], [['p', '2'], ['dih', '-BB', 'BB', '+BB', '+SC1'], ['p', '10']])]})
+    pool.append({'name': 'dihedral-phase-formatted', 'nodes': [node('SC1', num(0)), node('BB', num(0)), node('+BB', num(1)), node('+SC1', num(1))],
+                 'edges': [['SC1', 'BB'], ['BB', '+BB'], ['+BB', '+SC1']],
+                 'inters': [inter('dihedrals', ['SC1', 'BB', '+BB', '+SC1'], [['p', '1'], ['dihp', 'SC1', 'BB', '+BB', '+SC1'], ['p', '75'], ['p', '1']],
+                                  group='scfix', fmt={1: '.01f'})]})
+    pool.append({'name': 'dihedral-phase', 'nodes': [node('-BB', num(-1)), node('BB', num(0)), node('SC1', num(0)), node('+BB', num(1))],
+                 'edges': [['-BB', 'BB'], ['BB', 'SC1'], ['BB', '+BB']],
+                 'inters': [inter('impropers', ['BB', '-BB', '+BB', 'SC1'], [['p', '2'], ['dihp', 'BB', '-BB', '+BB', 'SC1']]),
+                            inter('impropers', ['BB', '-BB', '+BB', 'SC1'], [['dih', 'BB', '-BB', '+BB', 'SC1'], ['dihp', 'BB', '-BB', '+BB', 'SC1']], 1)]})
+    pool.append({'name': 'dist-formatted', 'nodes': [node('BB', num(0)), node('SC1', num(0))], 'edges': [['BB', 'SC1']],
+                 'inters': [inter('constraints', ['BB', 'SC1'], [['p', '1'], ['dist', 'SC1', 'BB']], fmt={1: '.3f'})]})
+    # ---- removal templates with parameters, per-atom conditions and meta conditions
+    pool.append({'name': 'remove-atom-attrs', 'nodes': bb2, 'edges': [['BB', '+BB']], 'inters': [],
+                 'removes': [removal('bonds', ['BB', '+BB'], atom_attrs=[[pred('cgsecstruct', 'eq', 'H')], [pred('resname', 'in', 'ALA', 'LYS', 'CYS')]])]})
+    pool.append({'name': 'remove-meta', 'nodes': bb2, 'edges': [['BB', '+BB']], 'inters': [],
+                 'removes': [removal('bonds', ['BB', '+BB'], meta=[pred('group', 'eq', 'bb')])]})
+    pool.append({'name': 'remove-meta-choice-params', 'nodes': bb2, 'edges': [['BB', '+BB']], 'inters': [],
+                 'removes': [removal('bonds', ['BB', '+BB'], params=P(1, 0.31, 9999), meta=[pred('group', 'in', 'helix', 'x')])]})
+    pool.append({'name': 'remove-meta-notdef', 'nodes': bb2, 'edges': [['BB', '+BB']], 'inters': [],
+                 'removes': [removal('bonds', ['BB', '+BB'], params=P(1, 0.35), meta=[pred('group', 'notdef', 'other')])]})
+    pool.append({'name': 'remove-versioned', 'nodes': [node('<BB', lt), node('BB', num(0)), node('>BB', gt)], 'edges': [['<BB', 'BB'], ['BB', '>BB']], 'inters': [],
+                 'removes': [removal('angles', ['<BB', 'BB', '>BB'], meta=[pred('version', 'eq', '#num:1')]),
+                             removal('angles', ['<BB', 'BB', '>BB'], atom_attrs=[[], [pred('mark', 'notdef', 'y')], []])]})
     return pool
 
 
+THEMES = [
+    ['bb-bond', 'bb-bond-helix', 'remove', 'remove-atom-attrs', 'remove-meta', 'remove-meta-choice-params', 'remove-meta-notdef', 'mods-str'],
+    ['angle-order', 'angle-arrows', 'angle-geo', 'non-edge', 'remove-versioned', 'angle-geo-formatted'],
+    ['mods-empty-replace', 'mods-list', 'mods-list-repeated', 'mods-str', 'mods-choice', 'mods-non-edge', 'mods-pattern', 'choice', 'pattern-null', 'notdef'],
+    ['angle-geo', 'angle-geo-formatted', 'dihedral-geo', 'dihedral-phase-formatted', 'dihedral-phase', 'dist-formatted', 'bb-bond', 'delete-sc2'],
+]
+
+
+def fill_link(L):
+    return {'nodes': L['nodes'], 'edges': L.get('edges', []), 'nonedges': L.get('nonedges', []), 'patterns': L.get('patterns', []),
+            'molmeta': L.get('molmeta', []), 'inters': L.get('inters', []), 'removes': L.get('removes', []),
+            'replaces': L.get('replaces', []), 'deletes': L.get('deletes', []), 'features': L.get('features', [])}
+
+
 def build_real(M, links):
+    """Abstract molecule + abstract links -> real vermouth objects."""
     import numpy as np
-    import vermouth
-    from vermouth.molecule import Molecule, Link, Interaction, Choice, NotDefinedOrNot, ParamDistance, DeleteInteraction
+    from vermouth.molecule import (Molecule, Link, Interaction, Choice, NotDefinedOrNot, ParamDistance, ParamAngle, ParamDihedral,
+                                   ParamDihedralPhase, DeleteInteraction, Modification)
     from vermouth.forcefield import ForceField
     ff = ForceField(name='verif_c05')
     mol = Molecule(force_field=ff, nrexcl=1)
-    positions = {p[0]: np.array(p[1:], dtype=float) / 1000.0 for p in M['pos']}
+    positions = {p[0]: np.array(p[1:], dtype=float) * (UNIT_PM / 1000.0) for p in M['pos']}
     for n in M['nodes']:
-        mol.add_node(n['id'], resid=n['resid'], position=positions[n['id']], **{k: v for k, v in n['attrs']})
+        extra = {}
+        if n['mods'] or n['id'] % 3 == 0:
+            extra['modifications'] = [Modification(name=tuple(names)) for names in n['mods']]
+        mol.add_node(n['id'], resid=n['resid'], position=positions[n['id']], **{k: R.dec(v) for k, v in n['attrs']}, **extra)
     mol.add_edges_from(M['edges'])
-    mol.meta.update({k: v for k, v in M['meta']})
+    mol.meta.update({k: R.dec(v) for k, v in M['meta']})
     for it in M['inters']:
-        mol.interactions[it['type']].append(Interaction(atoms=tuple(it['atoms']), parameters=[p[1] for p in it['params']],
-                                                        meta={'version': it['ver']} if it['ver'] else {}))
+        mol.interactions[it['type']].append(Interaction(atoms=tuple(it['atoms']), parameters=[R.dec(p[1]) for p in it['params']],
+                                                        meta={k: R.dec(v) for k, v in it['meta']}))
 
     def conv_preds(preds):
         out = {}
         for p in preds:
             if p['kind'] == 'eq':
-                out[p['key']] = p['vals'][0]
+                out[p['key']] = R.dec(p['vals'][0])
             elif p['kind'] == 'in':
-                out[p['key']] = Choice(list(p['vals']))
+                out[p['key']] = Choice([R.dec(v) for v in p['vals']])
+            elif p['kind'] == 'null':
+                out[p['key']] = None
             else:
-                out[p['key']] = NotDefinedOrNot(p['vals'][0])
+                out[p['key']] = NotDefinedOrNot(R.dec(p['vals'][0]))
+        return out
+
+    def conv_template(t, rng_key):
+        out = conv_preds(t['preds'])
+        c = t['mods']
+        if c['k'] == 'empty':
+            out['modifications'] = [None, [], ''][len(rng_key) % 3]          # the three spellings of "no modifications"
+        elif c['k'] == 'list':
+            out['modifications'] = list(c['vals'])
+        elif c['k'] == 'str':
+            out['modifications'] = c['vals'][0]
+        elif c['k'] == 'choice':
+            out['modifications'] = Choice(list(c['vals']))
         return out
 
     def conv_order(o):
         return o['v'] if o['k'] == 'num' else {'gt': '>', 'lt': '<', 'star': '*'}[o['k']] * o['v']
-    for L in links:
+    effectors = {'dist': ParamDistance, 'angle': ParamAngle, 'dih': ParamDihedral, 'dihp': ParamDihedralPhase}
+    for li, L in enumerate(links):
         link = Link(force_field=ff)
         for nd in L['nodes']:
-            attrs = conv_preds(nd['preds'])
-            attrs['order'] = conv_order(nd['order'])
+            attrs = conv_template(nd, nd['key'] + 'x' * li)
+            if nd['order']['k'] != 'none':
+                attrs['order'] = conv_order(nd['order'])
             link.add_node(nd['key'], **attrs)
         link.add_edges_from(L.get('edges', []))
         for ne in L.get('nonedges', []):
-            a = conv_preds(ne['preds'])
+            a = conv_template(ne, ne['from'])
             a['order'] = ne['order']
             link.non_edges.append([ne['from'], a])
         for pat in L.get('patterns', []):
-            link.patterns.append([[x['key'], conv_preds(x['preds'])] for x in pat])
+            link.patterns.append([[x['key'], conv_template(x, x['key'])] for x in pat])
         link.molecule_meta.update(conv_preds(L.get('molmeta', [])))
+        link.features.update(L.get('features', []))
         for it in L.get('inters', []):
-            params = [ParamDistance([p[1], p[2]]) if p[0] == 'dist' else p[1] for p in it['params']]
+            fmt = {int(i): f for i, f in it.get('fmt', [])}
+            params = [effectors[p[0]](list(p[1:]), format_spec=fmt.get(i)) if p[0] in effectors else R.dec(p[1]) for i, p in enumerate(it['params'])]
             link.interactions.setdefault(it['type'], []).append(
-                Interaction(atoms=tuple(it['atoms']), parameters=params, meta={'version': it['ver']} if it['ver'] else {}))
+                Interaction(atoms=tuple(it['atoms']), parameters=params, meta={k: R.dec(v) for k, v in it['meta']}))
         for rm in L.get('removes', []):
             link.removed_interactions.setdefault(rm['type'], []).append(
-                DeleteInteraction(atoms=tuple(rm['atoms']), atom_attrs=[{} for _ in rm['atoms']], parameters=[p[1] for p in rm['params']], meta={}))
+                DeleteInteraction(atoms=tuple(rm['atoms']), atom_attrs=[conv_preds(a) for a in rm['atom_attrs']],
+                                  parameters=[R.dec(p[1]) for p in rm['params']], meta=conv_preds(rm['meta'])))
         for rp in L.get('replaces', []):
-            link.nodes[rp['key']].setdefault('replace', {})[rp['attr']] = rp['value']
+            link.nodes[rp['key']].setdefault('replace', {})[rp['attr']] = R.dec(rp['value'])
         for key in L.get('deletes', []):
             link.nodes[key].setdefault('replace', {})['atomname'] = None
         ff.links.append(link)
     return mol
 
 
-ATTR_KEYS = ['atomname', 'resname', 'chain', 'cgsecstruct', 'mark', 'atype']
-
-
-def project_nodes(mol, M):
-    """Node attributes in the shape of the model (order of the original attribute lists, then new keys)."""
-    out = []
-    for n in M['nodes']:
-        if n['id'] not in mol:
-            out.append(None)
-            continue
-        d = mol.nodes[n['id']]
-        attrs = [[k, str(d[k])] for k, _ in n['attrs']]
-        for k in ATTR_KEYS:
-            if k in d and k not in [a[0] for a in attrs]:
-                attrs.append([k, str(d[k])])
-        out.append({'id': n['id'], 'resid': d['resid'], 'attrs': attrs})
-    return out
+def _canon(x):
+    import json
+    return json.dumps(x, sort_keys=True)
 
 
 def run_real(M, links):
-    """Run the real DoLinks with match_link interposed. Returns steps and final table."""
-    import vermouth.processors.do_links as dl
+    """Build the real objects, check that the generic projection gives the descriptions back, run the real DoLinks with the
+    recorder. Returns the (single) run event."""
     mol = build_real(M, links)
-    steps = []
-    orig = dl.match_link
-    link_index = {id(l): i + 1 for i, l in enumerate(mol.force_field.links)}
-
-    def spy(molecule, link):
-        step = {'link': link_index[id(link)], 'before': [x for x in project_nodes(molecule, M) if x is not None], 'matches': []}
-        steps.append(step)
-        for match in orig(molecule, link):
-            step['matches'].append(sorted([k, v] for k, v in match.items()))
-            yield match
-    dl.match_link = spy
-    try:
-        dl.DoLinks().run_molecule(mol)
-    finally:
-        dl.match_link = orig
-    final_inters = []
-    for t, lst in mol.interactions.items():
-        for it in lst:
-            params = []
-            for p in it.parameters:
-                if isinstance(p, float) or hasattr(p, 'dtype'):
-                    d2 = float(p) ** 2 * 1e6
-                    if abs(d2 - round(d2)) > 1e-3 * max(1.0, d2):
-                        params.append(['d2', 'non-lattice:%r' % float(p)])
-                    else:
-                        params.append(['d2', str(int(round(d2)))])
-                else:
-                    params.append(['p', str(p)])
-            final_inters.append({'type': t, 'atoms': list(it.atoms), 'params': params, 'ver': it.meta.get('version', 0)})
-    return steps, {'ids': sorted(mol.nodes), 'inters': final_inters}
+    ljson = [fill_link(L) for L in links]
+    back = [R.abstract_link(l) for l in mol.force_field.links]
+    if _canon(back) != _canon(ljson):
+        bad = next(i for i in range(len(ljson)) if _canon(back[i]) != _canon(ljson[i]))
+        raise tlc.MachineryError('projection of a built link differs from its description: %s\n%s' % (_canon(ljson[bad]), _canon(back[bad])))
+    M0, _ = R.abstract_state(mol, ATTR_KEYS, META_KEYS, UNIT_PM)
+    same = (M0['nodes'] == M['nodes'] and M0['pos'] == M['pos'] and M0['meta'] == M['meta'] and M0['inters'] == M['inters']
+            and sorted(map(sorted, M0['edges'])) == sorted(map(sorted, M['edges'])))
+    if not same:
+        raise tlc.MachineryError('projection of a built molecule differs from its description: %s\n%s' % (_canon(M), _canon(M0)))
+    events = R.record_run(mol, ljson, ATTR_KEYS, META_KEYS, UNIT_PM, seg_len=None, with_before=True)
+    assert len(events) == 1
+    return events[0]
 
 
-def fill_link(L):
-    out = {'nodes': L['nodes'], 'edges': L.get('edges', []), 'nonedges': L.get('nonedges', []), 'patterns': L.get('patterns', []),
-           'molmeta': L.get('molmeta', []), 'inters': L.get('inters', []), 'removes': L.get('removes', []),
-           'replaces': L.get('replaces', []), 'deletes': L.get('deletes', [])}
-    return out
-
-
-def self_replacing(L):
-    """The link's own replace touches an attribute it matches on (outcome depends on the lazy matcher: not generated)."""
-    keys = {p['key'] for n in L['nodes'] for p in n['preds']}
-    return any(r['attr'] in keys for r in L.get('replaces', []))
+def pick_links(rng, pool, byname):
+    k = rng.randint(1, 4)
+    if rng.random() < 0.6:
+        theme = rng.choice(THEMES)
+        return [byname[rng.choice(theme)] for _ in range(k)]
+    return [rng.choice(pool) for _ in range(k)]
 
 
 def _run_chunk(args):
     n, seed = args
     rng = random.Random(seed)
     out = []
+    pool = link_pool()
+    byname = {L['name']: L for L in pool}
     for _ in range(n):
         M = make_molecule(rng)
-        pool = link_pool(rng)
-        k = rng.randint(1, 4)
-        links = [rng.choice(pool) for _ in range(k)]
-        # node deletion happens after all matches of a link; interactions of deleted atoms disappear with them
+        links = pick_links(rng, pool, byname)
+        names = [L['name'] for L in links]
         try:
-            steps, final = run_real(M, links)
-            err = ''
+            e = run_real(M, links)
+        except tlc.MachineryError:
+            raise
         except Exception as exc:      # noqa
-            steps, final, err = [], {'ids': [], 'inters': []}, repr(exc)[:300]
-        out.append({'kind': 'run', 'M': M, 'links': [fill_link(L) for L in links], 'names': [L['name'] for L in links],
-                    'steps': steps, 'final': final, 'err': err})
+            e = {'kind': 'run', 'M': M, 'links': [fill_link(L) for L in links], 'steps': [], 'final': {'ids': [], 'nodes': [], 'inters': []},
+                 'py': {'geo': [], 'unit_pm': UNIT_PM, 'segment': [0, len(links)]}, 'err': repr(exc)[:300]}
+        e['names'] = names
+        out.append(e)
     return out
 
 
-def _judge(shard):
-    work = tlc.scratch('c05_')
-    tf = tlc.write_json(work, 'trace.json', [{k: e[k] for k in e if k not in ('names', 'err')} for e in shard])
-    res = tlc.run('Trace_Links', 'SPECIFICATION Spec\n', dump=True, env={'TRACE_FILE': tf}, workdir=work, workers=1, timeout=3400)
-    return res.distinct, res.generated, {st['tid']: st['verdict'] for st in res.states() if st['verdict'] != 'pending'}
-
-
-def judge_events(events, ev, vd):
-    shards = common.chunks(events, tlc.NCPU)
-    with mp.Pool(len(shards)) as pool:
-        outs = pool.map(_judge, shards)
+def tally(events, ev):
     applied = {}
-    for shard, (d, g, verdicts) in zip(shards, outs):
-        ev.states += d
-        ev.transitions += g
-        for i, e in enumerate(shard, 1):
-            ev.traces += 1
-            ev.evaluations += 1
-            v = verdicts.get(i, 'no-verdict')
-            if e.get('err'):
-                v = 'DoLinks raised ' + e['err']
-            if e['kind'] == 'run':
-                for st in e['steps']:
-                    nm = e['names'][st['link'] - 1]
-                    a = applied.setdefault(nm, [0, 0])
-                    a[0] += 1
-                    a[1] += len(st['matches'])
-                if sum(len(s['matches']) for s in e['steps']) >= 1:
-                    ev.nontrivial_case([e['M'], e['names']])
-            if v != 'ok':
-                vd.violation('trace-rejected', e, '%s: %s' % (e.get('names', e['kind']), v))
+    for e in events:
+        if e['kind'] != 'run':
+            continue
+        for st in e['steps']:
+            nm = e['names'][st['link'] - 1]
+            a = applied.setdefault(nm, [0, 0])
+            a[0] += 1
+            a[1] += len(st['matches'])
+        if sum(len(s['matches']) for s in e['steps']) >= 1:
+            ev.nontrivial_case([e['M'], e['names'], e.get('origin')])
     return applied
 
 
+GEO_CLASSES = ['angle:0', 'angle:90', 'angle:180', 'angle:other', 'dih:0', 'dih:90', 'dih:-90', 'dih:180', 'dih:other',
+               'dihp:0', 'dihp:90', 'dihp:-90', 'dihp:180', 'dihp:other', 'dist:value']
+
+
 def run(tier, seed, ev, vd):
-    ev.rule = ('Order table: every pair of orders (integers -2..2, 1-3 arrows/stars) x resid pairs; runs: random molecules of 2-5 '
-               'residues (gaps, second chain with overlapping numbering, cross-links) x 1-4 links from a 14-link feature pool. '
-               'Non-trivial run = at least one placement applied; distinct by (molecule, link list).')
-    ev.assumptions = ['links are built as Link objects (the .ff grammar is C13)', 'non-edges only with an order-0 anchor and a numeric '
-                      'partner order; links whose own replace changes an attribute they match on are not generated',
-                      'geometry: distance effector on a 100 pm lattice, compared through the squared distance (1e-3 relative); angle and '
-                      'dihedral effectors not generated', 'final table compared as a bag (order of interactions is not part of the statement)']
+    ev.rule = ('Order table: every pair of orders (integers -2..2, 1-3 arrows/stars) x resid pairs. Generated runs: random molecules of 2-5 '
+               'residues (gaps, second chain with overlapping numbering, cross-links, atoms carrying modifications, random / planar / grid / '
+               'collinear lattice positions) x 1-4 links from a 33-link feature pool (themed so that adders, overriders and removers meet). '
+               'Real runs: tier-0 structures through the real pipeline up to DoAverageBead x every link of the shipped force field, cut '
+               'into segments of consecutive links. Non-trivial run = at least one placement applied; distinct by (molecule, link list).')
+    ev.assumptions = [
+        'generated links are built as Link objects (the .ff grammar is C13); real links are the parsed shipped libraries',
+        'non-edges only with an order-0 anchor and a numeric partner order; links whose own replace changes an attribute they match on '
+        'are not generated, and a shipped link doing so would be listed as not expressible',
+        'positions are on an integer lattice (generated: 100 pm, real molecules: bead positions snapped to 10 pm before DoLinks); TLC '
+        'computes exact integer invariants of the matched atoms (squared distance; u.v, |u|^2, |v|^2; triple and normal products with the '
+        'class 0/90/-90/180/other); sqrt, acos, atan2 and the printf-style formatting of the link are evaluated in Python on those '
+        'integers and compared with the value of the real code: %g relative on distances, %g degree on angles, half a unit of the last '
+        'printed digit more for formatted values; +180 and -180 degrees are the same dihedral' % (R.DIST_RTOL, R.ANGLE_TOL),
+        'angles of coincident atoms / dihedrals of collinear triples are not defined by the statement: TLC marks them degenerate and '
+        'the value is not compared',
+        'final table compared as a bag (order of interactions is not part of the statement); node attributes as sets of pairs',
+        'link features are declarations (ForceField.has_feature) and condition nothing; log entries and citations are not modelled']
     quick = tier == 'quick'
     res = tlc.run('LinksOrder', 'SPECIFICATION Spec\nINVARIANT OpIsDoc\nINVARIANT Symmetric\nINVARIANT SameOrderSameResidue\n',
                   consts={'MaxNum': '2', 'MaxArrow': '3', 'Resids': '1..5' if quick else '-1..6'}, dump=True, timeout=1800)
@@ -378,48 +477,129 @@ def run(tier, seed, ev, vd):
             vd.violation('replay-mismatch', b, 'match_order: documented %s, implementation %s' % (b['expected'], b['got']))
     ev.exhaustive = True
     check_invalid_orders(vd, ev)
+    # ---- real force fields on real molecules: recording runs in a pool while the generated family is recorded
+    jobs = R.make_jobs(tier, seed)
     nruns = 480 if quick else 16000
     with mp.Pool(tlc.NCPU) as pool:
+        real_async = pool.map_async(R.real_job, jobs, chunksize=1)
         parts = pool.map(_run_chunk, [(nruns // tlc.NCPU, seed * 9973 + i) for i in range(tlc.NCPU)])
+        reals = real_async.get()
     events = [e for p in parts for e in p]
-    applied = judge_events(events, ev, vd)
+    real_events = [e for r in reals for e in r['events']]
+    verdicts, stats = R.judge_events(events + real_events, ev, vd, label='TRACE Trace_Links (generated + real runs)')
+    applied = tally(events, ev)
+    tally(real_events, ev)
     ev.extra['per_link_(times_tried,placements_applied)'] = applied
-    never = [k for k, v in applied.items() if v[1] == 0]
-    if never and not quick:
-        raise tlc.MachineryError('vacuous: links never applied: %s' % never)
-    ev.tlc_runs.append({'run': 'TRACE Trace_Links', 'events': len(events)})
-    e0 = next(e for e in events if sum(len(s['matches']) for s in e['steps']) >= 2)
+    ev.extra['geometry_values_by_class'] = dict(stats)
+    never = [L['name'] for L in link_pool() if applied.get(L['name'], [0, 0])[1] == 0]
+    missing = [c for c in GEO_CLASSES if not stats.get(c)]
+    if (never or missing) and not quick:
+        raise tlc.MachineryError('vacuous: links never applied: %s; geometry classes never seen: %s' % (never, missing))
+    report_real(reals, ev, quick)
+    e0 = next(e for e in events if sum(len(s['matches']) for s in e['steps']) >= 2 and e['py']['geo'])
     ev.sample({'kind': 'recorded DoLinks run judged by TLC', 'links': e0['names'], 'molecule_nodes': e0['M']['nodes'],
                'edges': e0['M']['edges'], 'steps': [{'link': s['link'], 'matches': s['matches']} for s in e0['steps']],
-               'final': e0['final']})
+               'final': e0['final']['inters'], 'geometry_values': e0['py']['geo']})
+    r0 = next((e for e in real_events if sum(len(s['matches']) for s in e['steps']) >= 2), None)
+    if r0:
+        ev.sample({'kind': 'segment of a real DoLinks run judged by TLC', 'origin': r0['origin'], 'links': r0['names'],
+                   'beads': len(r0['M']['nodes']), 'steps': [{'link': s['link'], 'placements': len(s['matches']), 'first': s['matches'][:2]} for s in r0['steps']],
+                   'interactions_before': len(r0['M']['inters']), 'interactions_after': len(r0['final']['inters'])})
+
+
+def report_real(reals, ev, quick):
+    rows, skipped, applied_by_ff = [], {}, {}
+    for r in reals:
+        job = r['job']
+        if r.get('error'):
+            raise tlc.MachineryError('real pipeline: %s (%s)' % (r['error'], job))
+        for name, why in r['skipped']:
+            skipped.setdefault(job['ff'], {})[name] = why
+        tot = applied_by_ff.setdefault(job['ff'], [0] * r['links_judged'])
+        for m in r['molecules']:
+            if 'skipped' in m:
+                raise tlc.MachineryError('real molecule not expressible: %s (%s)' % (m['skipped'], job))
+            for i, c in enumerate(m['per_link']):
+                tot[i] += c
+        rows.append({'structure': job['struct'], 'force_field': job['ff'],
+                     'variant': {k: job[k] for k in job if k not in ('struct', 'ff', 'seg_len')},
+                     'beads': [m['beads'] for m in r['molecules']], 'links_in_force_field': r['links_total'], 'links_judged': r['links_judged'],
+                     'placements_applied': sum(m.get('placements', 0) for m in r['molecules']),
+                     'geometry_values_checked': sum(m.get('geometry_values', 0) for m in r['molecules']), 'segments': len(r['events'])})
+    ev.extra['real_runs'] = rows
+    ev.extra['real_links_not_expressible_(skipped,_listed)'] = {ff: {'count': len(d), 'links': d} for ff, d in skipped.items()} or {'count': 0}
+    names = {r['job']['ff']: r['names'] for r in reals}
+    ev.extra['real_links_applied_at_least_once'] = {ff: '%d of %d' % (sum(1 for c in tot if c), len(tot)) for ff, tot in applied_by_ff.items()}
+    ev.extra['real_links_never_applied'] = {ff: [names[ff][i] for i, c in enumerate(tot) if not c] for ff, tot in applied_by_ff.items()}
+    if not any(row['placements_applied'] for row in rows):
+        raise tlc.MachineryError('vacuous: no placement applied in any real run')
 
 
 def replay(sc):
-    if sc.get('kind') == 'run':
-        steps, final = run_real(sc['M'], [dict(L, name='?') for L in sc['links']])
-        print('matches per link now:', [(s['link'], s['matches']) for s in steps])
-        print('final now           :', final)
-        print('recorded            :', sc['final'])
+    if sc.get('kind') == 'run' and sc.get('origin'):
+        r = R.real_job(sc['origin'])
+        seg = sc['py']['segment']
+        print('real job', sc['origin'])
+        for e in r['events']:
+            if e['py']['segment'] == seg and e['origin'].get('molecule') == sc['origin'].get('molecule'):
+                print('links              :', e['names'])
+                print('matches per link now:', [(s['link'], s['matches']) for s in e['steps']])
+                print('recorded            :', [(s['link'], s['matches']) for s in sc['steps']])
+                print('final now == recorded:', e['final'] == sc['final'])
+    elif sc.get('kind') == 'run':
+        names = sc.get('names') or []
+        byname = {L['name']: L for L in link_pool()}
+        e = run_real(sc['M'], [byname[n] for n in names] if names and all(n in byname for n in names) else [dict(L, name='?') for L in sc['links']])
+        print('matches per link now:', [(s['link'], s['matches']) for s in e['steps']])
+        print('final now           :', e['final']['inters'], e['py']['geo'])
+        print('recorded            :', sc['final']['inters'], sc.get('py', {}).get('geo'))
     else:
         print(sc)
     return 0
 
 
 def selftest(seed):
-    events = _run_chunk((12, seed))
-    good = [e for e in events if sum(len(s['matches']) for s in e['steps']) >= 2 and not e['err']][:3]
     import copy
+    import os
+    events = _run_chunk((60, seed))
+    good = [e for e in events if sum(len(s['matches']) for s in e['steps']) >= 2 and not e.get('err')]
+    withgeo = [e for e in good if any(g['kind'] in ('angle', 'dih', 'dihp') for g in e['py']['geo'])]
+    modlinks = ('mods-list', 'mods-str', 'mods-choice', 'mods-list-repeated', 'mods-empty-replace')
+    withmods = [e for e in good if any(n in modlinks and e['steps'][i]['matches'] for i, n in enumerate(e['names']))]
     b1 = copy.deepcopy(good[0])
     st = next(s for s in b1['steps'] if s['matches'])
     st['matches'] = st['matches'][1:]                                    # a fitting placement not applied
     b2 = copy.deepcopy(good[1])
-    b2['final']['inters'] = b2['final']['inters'][:-1] if b2['final']['inters'] else [{'type': 'x', 'atoms': [0], 'params': [], 'ver': 0}]
+    b2['final']['inters'] = b2['final']['inters'][:-1] if b2['final']['inters'] else [{'type': 'x', 'atoms': [0], 'params': [], 'ver': 0, 'meta': []}]
+    b3 = copy.deepcopy(withgeo[0])                                       # a geometry-derived value off by one degree
+    g = next(x for x in b3['py']['geo'] if x['kind'] in ('angle', 'dih', 'dihp'))
+    g['value'] = g['value'] + 1.0 if isinstance(g['value'], float) else '%.2f' % (float(g['value']) + 1.0)
+    b4 = copy.deepcopy(withmods[0])                                      # the molecule's modifications changed after the run
+    i = next(i for i, n in enumerate(b4['names']) if n in modlinks and b4['steps'][i]['matches'])
+    key = next(nd['key'] for nd in b4['links'][i]['nodes'] if nd['mods']['k'] != 'absent')
+    atom = dict(map(tuple, b4['steps'][i]['matches'][0]))[key]
+    for part in (b4['M']['nodes'], b4['final']['nodes']) + tuple(s['before'] for s in b4['steps']):
+        for nd in part:
+            if nd['id'] == atom:
+                nd['mods'] = [['prot'], ['prot'], ['other']]
+    rjob = dict(R.make_jobs('quick', seed)[0], seg_len=3)
+    real = R.real_job(rjob)['events']
+    rgood = next(e for e in real if sum(len(s['matches']) for s in e['steps']) >= 2)
+    b5 = copy.deepcopy(rgood)                                            # real run: one placement of a shipped link dropped
+    st = next(s for s in b5['steps'] if s['matches'])
+    st['matches'] = st['matches'][:-1]
+    b6 = copy.deepcopy(rgood)                                            # real run: a placement on the wrong residue pair
+    st = next(s for s in b6['steps'] if len(s['matches']) >= 2 and len(s['matches'][0]) >= 2)
+    st['matches'][0][0][1], st['matches'][1][0][1] = st['matches'][1][0][1], st['matches'][0][0][1]
     ev = common.Evidence(PID, 'quick', seed)
     vd = common.Verdicts(PID, ev)
-    judge_events([good[2], b1, b2], ev, vd)
-    assert len(vd.violations) == 2, vd.violations
-    print('selftest C05: tampered runs rejected:', [d.split(': ')[-1] for k, p, d in vd.violations])
-    import os
+    batch = [good[2], withgeo[0], withmods[0], rgood, b1, b2, b3, b4, b5, b6]
+    verdicts, _ = R.judge_events(batch, ev, vd, nproc=5)
+    print('selftest C05: untouched runs:', verdicts[:4])
+    print('selftest C05: tampered runs :', [v[:70] for v in verdicts[4:]], '(mods atom %s key %s)' % (atom, key))
     for k, p, d in vd.violations:
         os.path.exists(p) and os.remove(p)
+    assert verdicts[:4] == ['ok'] * 4, verdicts[:4]
+    assert all(v != 'ok' for v in verdicts[4:]), verdicts[4:]
+    assert verdicts[6].startswith('geometry-parameter-differs'), verdicts[6]
     return 0
